@@ -531,3 +531,65 @@ class Pair:
 
     def close(self) -> None:
         self.h.close()
+
+
+class _LogSession:
+    """Session that logs every callback into store[name]"""
+
+    def __init__(self, store: Dict[Any, List[Any]], name, eof_keep=True):
+        self.store = store
+        self.name = name
+        self.chan = None
+        self.eof_keep = eof_keep
+        self.events = store.setdefault(name, [])
+
+    def connection_made(self, chan):
+        self.chan = chan
+        self.events.append(('made',))
+
+    def session_started(self):
+        self.events.append(('started',))
+
+    def data_received(self, data, datatype):
+        self.events.append(('data', datatype, data))
+
+    def eof_received(self):
+        self.events.append(('eof',))
+        return self.eof_keep
+
+    def connection_lost(self, exc):
+        self.events.append(('lost', type(exc).__name__ if exc else None))
+
+    def shell_requested(self):
+        return True
+
+    def exec_requested(self, command):
+        return True
+
+    def subsystem_requested(self, subsystem):
+        return False
+
+    def pty_requested(self, *args):
+        self.events.append(('pty',))
+        return True
+
+    def exit_status_received(self, status):
+        self.events.append(('exit_status', status))
+
+    def exit_signal_received(self, *args):
+        self.events.append(('exit_signal', args[0]))
+
+    def stream(self, datatype=None):
+        parts = [e[2] for e in self.events if e[0] == 'data' and
+                 e[1] == datatype]
+        if parts and isinstance(parts[0], str):
+            return ''.join(parts)
+        return b''.join(parts)
+
+
+class LogClientSession(_LogSession, asyncssh.SSHClientSession):
+    pass
+
+
+class LogServerSession(_LogSession, asyncssh.SSHServerSession):
+    pass
